@@ -14,8 +14,19 @@
 //!   readt k a i b   `read::<(Modular<M>, i64, Modular<M>)>()`, component k (0 or 2) is printed (i must come back)
 //!   tinv a | tdiv a b   the inverse / quotient computed on a freshly spawned thread that first inverts the same
 //!                   number under other moduli, while this thread inverts under a third modulus
+//!   reads S tok | readfars S tok d | readvs S k tok0..tokn | readts S k a i b
+//!                   the read ops above, but the text reaches the Reader through a source that hands it out
+//!                   according to the delivery schedule S (see `Sched`): short reads that split a token (once, twice in
+//!                   a row, byte by byte), Interrupted errors between the pieces, std::io::Chain of the pieces, other
+//!                   blank characters as delimiters, end of input right after the last digit.  `tok` is a decimal i64
+//!                   numeral, possibly zero-padded.  Every other value of the text and the end of the input are
+//!                   checked here (`!read-other`, `!read-not-eof`).
+//!   writefar v d    `new(v)` written when the Writer's buffer already holds 65536-d bytes of earlier output
+//!   writes S v      `new(v)` written into a sink that accepts the bytes according to the schedule S (short writes,
+//!                   Interrupted errors; flag `d`: the Writer is dropped, not flushed)
 //!   show a mm rat   `Show::show` with `ShowSettings { mint_max: mm, mint_rational: rat != 0, ..new() }`
 //!   showd a         `Show::show` with `ShowSettings::new()`
+//!                   (both: a Vec, an array and a tuple holding the value must show it the same way, else `!show-container`)
 //! Output: `R <inner()> x<hex Display> x<hex Debug> x<hex Writable> [!check ...]` for a value (the renderings
 //! byte-exact, hex-encoded; `!name` for every internal consistency check that failed), `R <0|1> <0|1>` for
 //! a comparison (`==` and `!(a != b)`), `S x<hex>` for show, `P` if anything panicked.
@@ -102,7 +113,236 @@ fn eq_line<const M: u32>(a: Modular<M>, b: Modular<M>) -> String {
     s
 }
 
+/// Delivery schedule `<head>/<cycle>[:<flags>]`: `head` and `cycle` are `.`-separated piece lengths (either may be
+/// empty).  The pieces of `head` are handed out first, then `cycle` repeats; with an empty cycle the rest comes in
+/// one piece.  Flags: `i` Interrupted errors between the pieces (also two in a row, also before the end of input),
+/// `h` the pieces are `Cursor`s joined by `std::io::Chain` instead of the source below, `e` no delimiter after the
+/// last token (the input ends there), `d` (sinks) drop the Writer instead of flushing it, `w<k>` blank style k.
+struct Sched {
+    head: Vec<usize>,
+    cycle: Vec<usize>,
+    intr: bool,
+    chain: bool,
+    eof_ends: bool,
+    drop_only: bool,
+    style: u8,
+}
+
+fn sched(s: &str) -> Sched {
+    let (lens, flags) = match s.split_once(':') {
+        Some((a, b)) => (a, b),
+        None => (s, ""),
+    };
+    let (h, c) = match lens.split_once('/') {
+        Some(x) => x,
+        None => {
+            eprintln!("harness: schedule {:?} has no '/'", s);
+            std::process::exit(3)
+        }
+    };
+    let list = |x: &str| -> Vec<usize> { x.split('.').filter(|y| !y.is_empty()).map(|y| p::<usize>(y).max(1)).collect() };
+    let mut r = Sched { head: list(h), cycle: list(c), intr: false, chain: false, eof_ends: false, drop_only: false, style: 0 };
+    let fb = flags.as_bytes();
+    let mut i = 0;
+    while i < fb.len() {
+        match fb[i] {
+            b'i' => r.intr = true,
+            b'h' => r.chain = true,
+            b'e' => r.eof_ends = true,
+            b'd' => r.drop_only = true,
+            b'w' if i + 1 < fb.len() && fb[i + 1].is_ascii_digit() => {
+                i += 1;
+                r.style = fb[i] - b'0';
+            }
+            other => {
+                eprintln!("harness: unknown schedule flag {:?}", other as char);
+                std::process::exit(3)
+            }
+        }
+        i += 1;
+    }
+    r
+}
+
+impl Sched {
+    /// length of piece number `idx` when `rem` bytes are left
+    fn piece(&self, idx: usize, rem: usize) -> usize {
+        let want = if idx < self.head.len() {
+            self.head[idx]
+        } else if !self.cycle.is_empty() {
+            self.cycle[(idx - self.head.len()) % self.cycle.len()]
+        } else {
+            rem
+        };
+        want.max(1).min(rem)
+    }
+
+    /// (lead, separator, trail) of the blank style; all of them are ASCII whitespace for the Reader
+    fn blanks(&self) -> (&'static str, &'static str, &'static str) {
+        let (l, s, t) = match self.style {
+            0 => (" ", " ", "\n"),
+            1 => ("\t", "\t", "\t"),
+            2 => ("\r\n", "\r\n", "\r\n"),
+            3 => ("\x0c", "\x0c", "\x0c"),
+            _ => ("", "  \n\t ", " \n\n"),
+        };
+        (l, s, if self.eof_ends { "" } else { t })
+    }
+
+    fn text(&self, toks: &[&str]) -> Vec<u8> {
+        let (l, s, t) = self.blanks();
+        format!("{}{}{}", l, toks.join(s), t).into_bytes()
+    }
+
+    fn source(&self, data: Vec<u8>) -> Box<dyn std::io::Read> {
+        use std::io::Read;
+        let base: Box<dyn Read> = if self.chain {
+            let mut src: Box<dyn Read> = Box::new(std::io::empty());
+            let (mut pos, mut idx) = (0usize, 0usize);
+            while pos < data.len() {
+                // a long cyclic schedule would nest too deeply: after 300 pieces the rest comes in one
+                let n = if idx < 300 { self.piece(idx, data.len() - pos) } else { data.len() - pos };
+                src = Box::new(src.chain(std::io::Cursor::new(data[pos..pos + n].to_vec())));
+                pos += n;
+                idx += 1;
+            }
+            src
+        } else {
+            Box::new(Pieces { data, pos: 0, idx: 0, head: self.head.clone(), cycle: self.cycle.clone() })
+        };
+        if self.intr {
+            Box::new(Intr { inner: base, tick: 0 })
+        } else {
+            base
+        }
+    }
+}
+
+/// a `Read` whose every call returns the next piece of the schedule (never more, never an empty piece before the end)
+struct Pieces {
+    data: Vec<u8>,
+    pos: usize,
+    idx: usize,
+    head: Vec<usize>,
+    cycle: Vec<usize>,
+}
+
+impl std::io::Read for Pieces {
+    fn read(&mut self, buf: &mut [u8]) -> std::io::Result<usize> {
+        let rem = self.data.len() - self.pos;
+        if rem == 0 || buf.is_empty() {
+            return Ok(0);
+        }
+        let want = if self.idx < self.head.len() {
+            self.head[self.idx]
+        } else if !self.cycle.is_empty() {
+            self.cycle[(self.idx - self.head.len()) % self.cycle.len()]
+        } else {
+            rem
+        };
+        self.idx += 1;
+        let n = want.max(1).min(rem).min(buf.len());
+        buf[..n].copy_from_slice(&self.data[self.pos..self.pos + n]);
+        self.pos += n;
+        Ok(n)
+    }
+}
+
+/// Interrupted errors around the calls of the wrapped reader / writer: fail, pass, fail, fail, pass, ...
+struct Intr<T> {
+    inner: T,
+    tick: u32,
+}
+
+impl<T> Intr<T> {
+    fn fails_now(&mut self) -> bool {
+        let k = self.tick % 5;
+        self.tick += 1;
+        k == 0 || k == 2 || k == 3
+    }
+}
+
+impl<T: std::io::Read> std::io::Read for Intr<T> {
+    fn read(&mut self, buf: &mut [u8]) -> std::io::Result<usize> {
+        if self.fails_now() {
+            return Err(std::io::Error::new(std::io::ErrorKind::Interrupted, "interrupted"));
+        }
+        self.inner.read(buf)
+    }
+}
+
+impl<T: std::io::Write> std::io::Write for Intr<T> {
+    fn write(&mut self, buf: &[u8]) -> std::io::Result<usize> {
+        if self.fails_now() {
+            return Err(std::io::Error::new(std::io::ErrorKind::Interrupted, "interrupted"));
+        }
+        self.inner.write(buf)
+    }
+    fn flush(&mut self) -> std::io::Result<()> {
+        self.inner.flush()
+    }
+}
+
+/// a `Write` that accepts at most the next piece of the schedule per call
+struct ShortSink {
+    out: Vec<u8>,
+    idx: usize,
+    head: Vec<usize>,
+    cycle: Vec<usize>,
+}
+
+impl std::io::Write for ShortSink {
+    fn write(&mut self, buf: &[u8]) -> std::io::Result<usize> {
+        if buf.is_empty() {
+            return Ok(0);
+        }
+        let want = if self.idx < self.head.len() {
+            self.head[self.idx]
+        } else if !self.cycle.is_empty() {
+            self.cycle[(self.idx - self.head.len()) % self.cycle.len()]
+        } else {
+            buf.len()
+        };
+        self.idx += 1;
+        let n = want.max(1).min(buf.len());
+        self.out.extend_from_slice(&buf[..n]);
+        Ok(n)
+    }
+    fn flush(&mut self) -> std::io::Result<()> {
+        Ok(())
+    }
+}
+
+/// shows as the text it holds
+struct Verbatim(String);
+impl Show for Verbatim {
+    fn show(&self, _settings: &ShowSettings) -> String {
+        self.0.clone()
+    }
+}
+
+/// the text of `readfar`: the token starts d bytes before the 64 KiB boundary, after `earlier` tokens "7"
+fn far_text(tok: &str, d: usize) -> (Vec<u8>, usize) {
+    let pad = 65536usize.saturating_sub(d);
+    let mut text = String::with_capacity(pad + 40);
+    let mut earlier = 0usize;
+    if d % 2 == 0 {
+        while text.len() + 2 <= pad {
+            text.push_str("7 ");
+            earlier += 1;
+        }
+    }
+    while text.len() < pad {
+        text.push(' ');
+    }
+    text.push_str(tok);
+    text.push('\n');
+    (text.into_bytes(), earlier)
+}
+
 fn run<const M: u32>(t: &[&str]) -> String {
+    let mut alt_sink: Option<Vec<u8>> = None;
+    let mut more_bad: Vec<&'static str> = Vec::new();
     let m = |s: &str| Modular::<M>::new(p::<i64>(s));
     let r: Modular<M> = match t[1] {
         "new" => m(t[2]),
@@ -115,22 +355,8 @@ fn run<const M: u32>(t: &[&str]) -> String {
         "readfar" => {
             // the same token, but starting d bytes before the 64 KiB boundary of what the Reader has fetched so
             // far: padding of earlier values ("7 " tokens, all read as Modular too) or of blanks (odd d)
-            let d: usize = p(t[3]);
-            let pad = 65536usize.saturating_sub(d);
-            let mut text = String::with_capacity(pad + 40);
-            let mut earlier = 0usize;
-            if d % 2 == 0 {
-                while text.len() + 2 <= pad {
-                    text.push_str("7 ");
-                    earlier += 1;
-                }
-            }
-            while text.len() < pad {
-                text.push(' ');
-            }
-            text.push_str(t[2]);
-            text.push('\n');
-            let mut reader = Reader::new(Box::new(std::io::Cursor::new(text.into_bytes())));
+            let (text, earlier) = far_text(t[2], p(t[3]));
+            let mut reader = Reader::new(Box::new(std::io::Cursor::new(text)));
             for _ in 0..earlier {
                 let x: Modular<M> = reader.read();
                 assert!(x == Modular::<M>::new(7));
@@ -156,6 +382,111 @@ fn run<const M: u32>(t: &[&str]) -> String {
             } else {
                 b
             }
+        }
+        "reads" => {
+            let sc = sched(t[2]);
+            let mut reader = Reader::new(sc.source(sc.text(&t[3..4])));
+            let x = reader.read::<Modular<M>>();
+            if !reader.is_eof() {
+                more_bad.push("!read-not-eof");
+            }
+            x
+        }
+        "readfars" => {
+            let sc = sched(t[2]);
+            let (text, earlier) = far_text(t[3], p(t[4]));
+            let mut reader = Reader::new(sc.source(text));
+            for _ in 0..earlier {
+                let x: Modular<M> = reader.read();
+                assert!(x == Modular::<M>::new(7));
+            }
+            let x = reader.read::<Modular<M>>();
+            if !reader.is_eof() {
+                more_bad.push("!read-not-eof");
+            }
+            x
+        }
+        "readvs" => {
+            let sc = sched(t[2]);
+            let k: usize = p(t[3]);
+            let mut reader = Reader::new(sc.source(sc.text(&t[4..])));
+            let v: Vec<Modular<M>> = reader.read_vec(t.len() - 4);
+            assert_eq!(v.len(), t.len() - 4);
+            for (j, x) in v.iter().enumerate() {
+                if j != k && *x != m(t[4 + j]) {
+                    more_bad.push("!read-other");
+                    break;
+                }
+            }
+            if !reader.is_eof() {
+                more_bad.push("!read-not-eof");
+            }
+            v[k]
+        }
+        "readts" => {
+            let sc = sched(t[2]);
+            let k: usize = p(t[3]);
+            let mut reader = Reader::new(sc.source(sc.text(&t[4..7])));
+            let (a, i, b): (Modular<M>, i64, Modular<M>) = reader.read();
+            if i != p::<i64>(t[5]) || (if k == 0 { b != m(t[6]) } else { a != m(t[4]) }) {
+                more_bad.push("!read-other");
+            }
+            if !reader.is_eof() {
+                more_bad.push("!read-not-eof");
+            }
+            if k == 0 {
+                a
+            } else {
+                b
+            }
+        }
+        "writefar" => {
+            // 65536-d bytes are already in the Writer (written as one &str of "7 " tokens) when the value arrives
+            let x = m(t[2]);
+            let d: usize = p(t[3]);
+            let pad = "7 ".repeat(32768);
+            let pad = &pad[..65536usize.saturating_sub(d)];
+            let mut sink: Vec<u8> = Vec::new();
+            {
+                let mut w = Writer::new(Box::new(&mut sink));
+                w.write(&pad);
+                w.write(&x);
+                w.write_char('\n');
+                w.flush();
+            }
+            if sink.len() > pad.len() && sink.starts_with(pad.as_bytes()) && sink.ends_with(b"\n") {
+                alt_sink = Some(sink[pad.len()..sink.len() - 1].to_vec());
+            } else {
+                more_bad.push("!write-far-frame");
+                alt_sink = Some(Vec::new());
+            }
+            x
+        }
+        "writes" => {
+            // "1 <value>\n" into a sink that takes the bytes in pieces
+            let sc = sched(t[2]);
+            let x = m(t[3]);
+            let mut sink = Intr { inner: ShortSink { out: Vec::new(), idx: 0, head: sc.head.clone(), cycle: sc.cycle.clone() }, tick: 0 };
+            let mut plain = ShortSink { out: Vec::new(), idx: 0, head: sc.head.clone(), cycle: sc.cycle.clone() };
+            {
+                let target: Box<dyn std::io::Write + '_> = if sc.intr { Box::new(&mut sink) } else { Box::new(&mut plain) };
+                let mut w = Writer::new(target);
+                w.write(&Modular::<M>::ONE);
+                w.write_char(' ');
+                w.write(&x);
+                w.write_char('\n');
+                if !sc.drop_only {
+                    w.flush();
+                }
+            }
+            let out = if sc.intr { sink.inner.out } else { plain.out };
+            if out.len() > 3 && out.starts_with(b"1 ") && out.ends_with(b"\n") {
+                alt_sink = Some(out[2..out.len() - 1].to_vec());
+            } else {
+                more_bad.push("!write-short-frame");
+                alt_sink = Some(Vec::new());
+            }
+            x
         }
         "neg" => -m(t[2]),
         "inv" => m(t[2]).inv(),
@@ -287,6 +618,19 @@ fn run<const M: u32>(t: &[&str]) -> String {
             } else {
                 a.show(&ShowSettings::new())
             };
+            // inside the containers of rlib_show the value must be shown with the same settings: compared with the
+            // same containers holding the text verbatim
+            let st = if t[1] == "show" {
+                ShowSettings { mint_max: p::<i64>(t[3]), mint_rational: t[4] != "0", ..ShowSettings::new() }
+            } else {
+                ShowSettings::new()
+            };
+            if vec![a, a].show(&st) != vec![Verbatim(s.clone()), Verbatim(s.clone())].show(&st)
+                || (a, 7i64, a).show(&st) != (Verbatim(s.clone()), 7i64, Verbatim(s.clone())).show(&st)
+                || [a].show(&st) != [Verbatim(s.clone())].show(&st)
+            {
+                return format!("S {}", hex(format!("!show-container:{}", s).as_bytes()));
+            }
             return format!("S {}", hex(s.as_bytes()));
         }
         other => {
@@ -294,7 +638,10 @@ fn run<const M: u32>(t: &[&str]) -> String {
             std::process::exit(3)
         }
     };
-    let sink = written(&r);
+    let sink = match alt_sink {
+        Some(x) => x,
+        None => written(&r),
+    };
     assert_eq!(Modular::<M>::md(), M);
     let mut line = format!(
         "R {} {} {} {}",
@@ -303,7 +650,7 @@ fn run<const M: u32>(t: &[&str]) -> String {
         hex(format!("{:?}", r).as_bytes()),
         hex(&sink)
     );
-    for b in consistency(r) {
+    for b in consistency(r).into_iter().chain(more_bad) {
         line.push(' ');
         line.push_str(b);
     }
